@@ -1,7 +1,7 @@
 (* C08 — Bucketed allreduce is equivalent to per-tensor allreduce.  Statements only. *)
 From Coq Require Import List Arith ZArith Bool Lia.
 Import ListNotations.
-From KV Require Import Model.Bucket Proofs.BucketP.
+From KV Require Import Model.Bucket Proofs.BucketP Proofs.BucketOrderP.
 
 (* every tensor added (on a group of more than one rank) is, at any time, either
    pending in an open bucket or part of an emitted fused allreduce — with
@@ -68,3 +68,15 @@ Proof.
   intros cap cap2 ops H1 H2. apply (brun_cap_irrelevant_l cap cap2 ops [] 0); [intros k; cbn; lia|lia|lia].
 Qed.
 Print Assumptions brun_cap_irrelevant.
+
+(* per-group FIFO: for every group key, the tensors of that key in the fused instances emitted so far
+   (in emission order, in bucket order inside an instance), followed by the open bucket of that key,
+   are exactly the tensors added for that key, in the order they were added - so the i-th future
+   handed out for a group is resolved from the i-th tensor's slice, over any history and capacity *)
+Theorem per_group_fifo : forall cap ops k,
+  fk k (concat (snd (brun cap [] ops))) ++ cur (fst (brun cap [] ops)) k = fk k (flat_map added ops).
+Proof.
+  intros cap ops k.
+  exact (brun_fifo cap ops k [] ltac:(constructor) ltac:(intros k0 b0 H; discriminate)).
+Qed.
+Print Assumptions per_group_fifo.
